@@ -69,24 +69,33 @@ def relay_target(program, rep):
         rep.bad('C02.relay-target', site, f'event_handler(...={mapped!r})',
                 f'relay method {mapped} does not exist', line=world.node.lineno)
         return
-    body = strip_docstring(f.node.body)
+    from dlint.walk import Walker, Domain
+
+    class _RD(Domain):
+        def resolve_call(self, st, call, walker):
+            return walker.resolve_helper(st, call)
     a = f.node.args
     params = [x.arg for x in a.args]
     ok = False
-    why = 'the relay method is not a single forwarding call'
-    if len(body) == 1 and isinstance(body[0], (ast.Expr, ast.Return)) \
-            and isinstance(body[0].value, ast.Call) and len(params) >= 3 \
-            and a.vararg is not None:
-        call = body[0].value
+    why = 'the relay method does not forward to the mapped callback'
+    body = strip_docstring(f.node.body)
+    if len(params) >= 3 and a.vararg is not None:
         ev, h, va = params[1], params[2], a.vararg.arg
         want_f = f'getattr({h}, {h}.__events__[{ev}])'
-        got_args = [norm(x) for x in call.args]
-        if norm(call.func) == want_f and got_args == [f'*{va}'] \
-                and not call.keywords:
-            ok = True
-        else:
-            why = (f'relay calls {norm(call.func)}({", ".join(got_args)}); '
-                   f'expected {want_f}(*{va})')
+        exits = [e for e in Walker(program, _RD(program)).run(f, world)
+                 if e.kind != 'raise']
+        ok = bool(exits)
+        for ex in exits:
+            calls = [e.sym.node for e in ex.state.trace if e.kind == 'call'
+                     and isinstance(e.sym.node, ast.Call)
+                     and norm(e.sym.node.func) == want_f]
+            if len(calls) != 1 or [norm(x) for x in calls[0].args] != [
+                    f'*{va}'] or calls[0].keywords:
+                ok = False
+                got = [norm(e.sym.node) for e in ex.state.trace
+                       if e.kind == 'call'][-1:]
+                why = (f'relay performs {got}; expected exactly one call '
+                       f'{want_f}(*{va})')
     rep.check(ok, 'C02.relay-target', f.where, body[0] if body else f.node,
               'relay forwards (*args) to the method the handler maps to the '
               'event', why, line=f.node.lineno)
